@@ -50,6 +50,13 @@ THREADS = [
     # thread 1's program with thread 0's host function: beside thread 0 the two programs are identical down to the
     # generated code (anything keyed by generated text collides), only the bindings differ
     (RICH, [{"x": 7, "y": True, "s": "dropped", "p": "^dr.p"}, {"x": 0, "y": True, "s": "kk", "p": "^k$"}], "h0"),
+    # two short programs whose meaning hangs on the lexer callback that turns the identifiers true / false into
+    # literals: beside each other under switch points INSIDE lark's lazily built per-state scanners (granularity "codes")
+    ("y==true?x+11:x+12", [{"x": 100, "y": True, "s": "q", "p": "^q"}, {"x": 200, "y": False, "s": "qq", "p": "q$"}], None),
+    ("y!=false?x*3:x*5", [{"x": 70, "y": False, "s": "r", "p": "^r"}, {"x": 90, "y": True, "s": "rr", "p": "r$"}], None),
+    # the same idea with three tokens each, so that three preemptions stay cheap enough for the quick tier
+    ("y==true", [{"x": 1, "y": True, "s": "q", "p": "^q"}, {"x": 2, "y": False, "s": "qq", "p": "q$"}], None),
+    ("y==false", [{"x": 3, "y": False, "s": "r", "p": "^r"}, {"x": 4, "y": True, "s": "rr", "p": "r$"}], None),
 ]
 
 
@@ -75,6 +82,14 @@ def opcode_objects():
     import celpy.evaluation
     return [celpy.evaluation.Transpiler.evaluate.__code__, celpy.celparser.CELParser.__init__.__code__, celpy.celparser.CELParser.parse.__code__,
             celpy.Environment.__init__.__code__]
+
+
+def lexer_codes():
+    """Code objects of the third-party functions that build shared state lazily on behalf of every Environment:
+    lark's per-state lexer builds its scanner and its callback table on first use, and the parser object is the
+    process-wide singleton.  Under granularity "codes" every line of these functions is a switch point."""
+    from lark import lexer
+    return [lexer.BasicLexer.scanner.fget.__code__, lexer.BasicLexer._build_scanner.__code__]
 
 
 def to_cel(b):
@@ -139,7 +154,8 @@ def exec_batch(cfg, prefixes):
     for prefix in prefixes:
         phases = [[None] for _ in mix]
         bodies = [make_body(t, k, nevals, phases[i]) for i, (t, k) in enumerate(zip(tids, mix))]
-        res = sched.execute(bodies, prefix, opcode_code_objects=opcode_objects() if opcode else (), phases=phases, granularity=gran, only_phase=only)
+        res = sched.execute(bodies, prefix, opcode_code_objects=opcode_objects() if opcode else (), phases=phases, granularity=gran, only_phase=only,
+                            line_codes=lexer_codes() if gran == "codes" else ())
         res["left_behind"] = procstate.restore(snap)
         out.append(res)
     _WORKER["seq"] += 1
@@ -316,6 +332,10 @@ def run(ctx):
             (("I", "I"), (), 3, False, "all", "shallow:2", (0, 3)), (("C", "C"), (), 3, False, "all", "shallow:2", (0, 3)), (("I", "C"), (), 2, False, "all", "shallow:3", (3, 1)),
             (("I", "I"), (), 2, False, "all", "shallow:3", (0, 3)),
             (("I", "I"), (), 1, False, "eval", "call", (0, 3)), (("C", "C"), (), 1, False, "all", "call", (1, 3)),
+            # switch points inside lark's lazily built lexer scanners, parser already published by an earlier Environment
+            (("I", "I"), ("I",), 3, False, "all", "codes", (5, 6)), (("C", "C"), ("C",), 3, False, "all", "codes", (5, 6)), (("C", "C"), ("C",), 3, False, "all", "codes", (6, 5)),
+            (("I", "I", "I"), ("I",), 2, False, "all", "codes", (5, 6, 5)),
+            (("I", "I"), ("I",), 3, False, "all", "codes", (7, 8)), (("C", "C"), ("C",), 3, False, "all", "codes", (8, 7)), (("I", "I", "I"), ("I",), 3, False, "all", "codes", (7, 8, 7)),
         ]
     else:
         plan = [
@@ -327,6 +347,10 @@ def run(ctx):
             # the deep thread (3) beside a rich one: API-level switch points (an API function and what it calls directly), two preemptions
             (("I", "I"), (), 2, False, "all", "shallow:2", (0, 3)),
             (("C", "C"), (), 2, False, "all", "shallow:2", (0, 3)),
+            # switch points inside lark's lazily built lexer scanners (third-party code shared through the parser singleton),
+            # parser already published by an earlier Environment, three preemptions
+            (("I", "I"), ("I",), 3, False, "all", "codes", (7, 8)),
+            (("C", "C"), ("C",), 3, False, "all", "codes", (8, 7)),
         ]
     # solo references: fresh fork, cross-checked against a fresh python subprocess
     solos = {}
@@ -345,6 +369,11 @@ def run(ctx):
                 raise runner.HarnessError(f"solo run of thread {t}/{k} does not produce values: {ref}")
     # forced-collision check: program i on thread j's bindings, and program j on thread i's bindings,
     # must both differ from thread i's own result (brute force over the cross combinations)
+    side_by_side = set()
+    for entry in plan:
+        tids_ = tuple(entry[6]) if len(entry) > 6 else tuple(range(len(entry[0])))
+        side_by_side.update((a, b) for a in tids_ for b in tids_ if a != b)
+
     def collisions():
         import celpy
         out = {}
@@ -354,8 +383,8 @@ def run(ctx):
             return outcome.run(lambda: env.program(env.compile(expr), functions=functions_of(fn_of)).evaluate(to_cel(b)))
         for i in range(len(THREADS)):
             for j in range(len(THREADS)):
-                if i == j or THREADS[i][1] == THREADS[j][1]:
-                    continue                                   # (threads with the same bindings are never run side by side)
+                if i == j or THREADS[i][1] == THREADS[j][1] or (i, j) not in side_by_side:
+                    continue                                   # (only threads that some configuration runs side by side)
                 e, e2, bi, bj = expr_of(i, "I"), expr_of(j, "I"), THREADS[i][1], THREADS[j][1]
                 for n in range(nevals):
                     other_fn = THREADS[i][2] and THREADS[j][2] and THREADS[i][2] != THREADS[j][2]
